@@ -5,7 +5,7 @@ from props import PROPS, HOOK_COMMITS
 ids = [json.loads(l)["id"] for l in open("properties.jsonl")]
 checks = []
 for pid in ids:
-    if pid not in PROPS:
+    if pid not in PROPS or not PROPS[pid].get("ready"):
         continue
     p = PROPS[pid]
     checks.append({
@@ -20,7 +20,7 @@ for pid in ids:
         "technique": p["technique"],
     })
 na = [{"property_id": pid, "reason": "no check registered yet: the Lean model, theorems and correspondence harness for this property are still being built (plan in DESIGN.md section 6); machine-checked proof does apply to it"}
-      for pid in ids if pid not in PROPS]
+      for pid in ids if pid not in PROPS or not PROPS[pid].get("ready")]
 m = {
     "version": 1,
     "setup_cmd": "./check --setup",
